@@ -74,18 +74,15 @@ impl ToInternedString for PropertyName {
         match self {
             Self::Literal(key) => {
                 let name = interner.resolve_expect(key.sym());
-                // Only names that are certainly an `IdentifierName` or a decimal index can be
-                // printed bare; anything else (`"a b"`, `"x-y"`, `""`) needs the quotes back.
+                // Only names that are certainly an `IdentifierName` can be printed bare; anything
+                // else (`"a b"`, `"x-y"`, `""`) needs the quotes back.  A digit-only name such as
+                // `"1"` must stay quoted too: a bare `1` is read back as a numeric (computed) key.
                 let bare = name.utf8().is_some_and(|s| {
                     let mut chars = s.chars();
-                    let ident = chars
+                    chars
                         .next()
                         .is_some_and(|c| c.is_ascii_alphabetic() || c == '_' || c == '$')
-                        && chars.all(|c| c.is_ascii_alphanumeric() || c == '_' || c == '$');
-                    let index = !s.is_empty()
-                        && s.bytes().all(|b| b.is_ascii_digit())
-                        && (s == "0" || !s.starts_with('0'));
-                    ident || index
+                        && chars.all(|c| c.is_ascii_alphanumeric() || c == '_' || c == '$')
                 });
                 if bare {
                     name.to_string()
